@@ -6,6 +6,7 @@
 import ALV.Lemmas.C06Call
 import ALV.Lemmas.C06Gain
 import ALV.Lemmas.C06Algebra
+import ALV.Lemmas.C06TwoCalls
 import ALV.Common.Audit
 
 set_option linter.unusedSectionVars false
@@ -67,14 +68,13 @@ theorem allzero (b as : List (Coef K)) (a0 : Coef K) (zero : K) (mem xs : List K
 /-! ### C06.2 the output ends when the input or any coefficient stream ends -/
 
 /-- **C06.2** (`ends_with_shortest`): the number of outputs is the input length cut by the length
-of every coefficient *stream* (constants never end it) -/
+of every coefficient *stream* (constants never end it) — every numerator, every denominator tail,
+every constant gain, the all-zero filter included (it has no stream). -/
 theorem ends_with_shortest (b as : List (Coef K)) (a0 zero : K) (mem xs : List K)
-    (hmem : mem.length = as.length)
-    (hnz : ¬ ((∀ c ∈ b, c = Coef.const 0) ∧ (∀ c ∈ as, c = Coef.const 0))) :
+    (hmem : mem.length = as.length) :
     (evalTV (compileTV b (Coef.const a0 :: as) zero) mem zero (itsOf b as) xs).1.length
-      = endLen xs.length (b ++ as) := by
-  rw [tv_eq_spec b as a0 zero mem xs hmem hnz, tvspec_length]
-  rfl
+      = endLen xs.length (b ++ as) :=
+  evalTV_length b as a0 zero mem xs hmem
 
 /-- … for any gain (Stream included), at the level of the specification -/
 theorem spec_ends_with_shortest (b as : List (Coef K)) (a0 : Coef K) (zero : K) (mem xs : List K) :
@@ -166,17 +166,14 @@ theorem constants_eq_c04 (b as : List K) (a0 zero : K) (mem xs : List K)
 /-- **C06.4** (`reads_once`): whenever the generated loop yields at least `k` outputs, then after
 those `k` outputs (the input cut after `k` items) EVERY coefficient iterator `b{i}` / `a{j}` has been
 advanced by exactly `k` items — no `next` more, none less, whatever the shape of the expression —
-and the outputs are the first `k` outputs. -/
+and the outputs are the first `k` outputs.  No hypothesis on the coefficients: the all-zero filter
+with a constant gain has no Stream coefficient and no iterator. -/
 theorem reads_once (b as : List (Coef K)) (a0 zero : K) (mem xs : List K) (k : Nat)
-    (hnz : ¬ ((∀ c ∈ b, c = Coef.const 0) ∧ (∀ c ∈ as, c = Coef.const 0)))
     (hk : k ≤ (evalTV (compileTV b (Coef.const a0 :: as) zero) mem zero (itsOf b as) xs).1.length) :
     evalTV (compileTV b (Coef.const a0 :: as) zero) mem zero (itsOf b as) (xs.take k)
       = ((evalTV (compileTV b (Coef.const a0 :: as) zero) mem zero (itsOf b as) xs).1.take k,
-         ⟨b.map (fun c => c.items.drop k), as.map (fun c => c.items.drop k)⟩) := by
-  rw [compileTV_loop b as a0 zero hnz, itsOf_eq] at hk ⊢
-  simp only [evalTV] at hk ⊢
-  rw [runLoopTV_take b as _ _ xs k 0 0 0 mem _ hk]
-  simp [itsAt]
+         ⟨b.map (fun c => c.items.drop k), as.map (fun c => c.items.drop k)⟩) :=
+  evalTV_take b as a0 zero mem xs k hk
 
 /-- one evaluation of the generated expression with every coefficient present: each iterator is
 advanced by exactly one item, however many summands there are -/
@@ -284,6 +281,180 @@ theorem noncausal (num den : Terms (Coef K)) (mem : Mem K) (zero : K) (xs : List
     exact ⟨kv, hm, by simpa using hlt⟩
   simp [callTV, this]
 
+/-- **C06.7c** (`call_normalised`): `LinearFilter.__call__` on ANY normalised causal filter object
+(what `__init__` leaves: `terms()` ascending, no stored constant zero, denominator starting at
+delay 0 with a gain that is a non-zero constant or a Stream), C06.7a and C06.7b in one statement and
+with the all-zero filter: the zero value once per input when every coefficient besides the gain is
+the constant zero, the time-varying difference equation with gain `a0[n]` otherwise. -/
+theorem call_normalised (num den : Terms (Coef K)) (mem : Mem K) (zero : K) (xs : List K)
+    (hnum : List.Pairwise (fun x y : Int × Coef K => x.1 < y.1) num)
+    (hden : List.Pairwise (fun x y : Int × Coef K => x.1 < y.1) den)
+    (hstored : ∀ kv ∈ num ++ den, kv.2 ≠ Coef.const 0) (hc : ∀ kv ∈ num ++ den, 0 ≤ kv.1)
+    (h0 : coefAt den 0 ≠ Coef.const 0) :
+    ((∀ c ∈ dense num, c = Coef.const 0) ∧ (∀ c ∈ (dense den).tail, c = Coef.const 0) →
+      (callTV num den mem zero xs).map Prod.fst = .ok (xs.map (fun _ => zero)))
+    ∧ (¬ ((∀ c ∈ dense num, c = Coef.const 0) ∧ (∀ c ∈ (dense den).tail, c = Coef.const 0)) →
+      (callTV num den mem zero xs).map Prod.fst
+        = .ok (tvspec (dense num) (dense den).tail (coefAt den 0) zero 0
+                (memoryOf zero (dense den).tail.length mem) [] xs)) :=
+  callTV_normalised num den mem zero xs hnum hden hstored hc h0
+
+/-! ### C06.8 end to end: constructor arguments to outputs -/
+
+/-- **C06.8** (`filterCallTV_eq_specCallTV`, C04.10 for Stream coefficients): for every pair of raw
+constructor arguments — `(power, coefficient)` pairs in any order, with duplicates, stored zeros, any
+integer powers, any subset of the coefficients being Streams, the leading denominator coefficient
+included —, every memory (none, finite, endless, callable; too short ones are LEFT-padded by both
+sides), every zero value and every input, the code-shaped pipeline — sorted dictionary inserts and
+zero compaction of `Poly(dict)` at the coefficient type `Coef` (a Stream is never a zero),
+normalisation by the lowest denominator power in `LinearFilter.__init__`, causality test, gain
+test, the variable-gain rewriting `den[0] = 0; den *= inv_gain.copy(); den[0] = 1; numpoly *
+inv_gain` with `Poly.__mul__` on the dictionaries, the `ZFilter(…)` constructor again, `values()`,
+memory normalisation, the generated time-varying source and its execution with one iterator per
+Stream coefficient — returns exactly what the contract `specCallTV` says: `ValueError` for an empty
+denominator or a negative delay, the zero value per input for the all-zero filter, and otherwise
+the solution of  `a0[n]·y[n] = Σ_k b_k[n]·x[n−k] − Σ_{k≥1} a_k[n]·y[n−k]`  ending with the shortest
+of input, coefficient streams and gain stream.
+(Division is the field's total division on both sides; on the real code a zero inside a Stream
+gain raises `ZeroDivisionError` at that sample — outside the property, see ASSUMPTIONS of the tie.) -/
+theorem filterCallTV_eq_specCallTV (numPairs denPairs : List (Int × Coef K)) (mem : Mem K) (zero : K)
+    (xs : List K) :
+    (filterCallTV numPairs denPairs mem zero xs).map Prod.fst
+      = specCallTV numPairs denPairs mem zero xs :=
+  filterCallTV_eq_specCallTV_full numPairs denPairs mem zero xs
+
+/-! ### C06.9 the all-zero filter with a Stream gain, and the exact domain of C06.2 / C06.4 -/
+
+/-- **C06.9a** (`allzero_stream_gain`): `ZFilter([], [Stream(gs)])` — the filter whose only stored
+coefficient is a Stream gain.  The variable-gain rewriting leaves the empty numerator and the
+denominator `{0: 1}`; the generated source is `for unused in seq: yield zero`.  So the call yields
+the zero value once per INPUT item, whatever the gain stream holds and however short it is (it may
+be empty), and no iterator over the gain stream — nor over anything else — is handed to the loop:
+the gain stream is never read.  This is the one corner in which the output neither ends with the
+gain stream nor reads it once per sample. -/
+theorem allzero_stream_gain (gs : List K) (mem : Mem K) (zero : K) (xs : List K) :
+    callTV ([] : Terms (Coef K)) [((0 : Int), Coef.strm gs)] mem zero xs
+      = .ok (xs.map (fun _ => zero), ⟨[], []⟩) :=
+  callTV_gain_allzero gs mem zero xs
+
+/-- **C06.9b** (`allzero_stream_gain_shape`): that object is the whole corner — a normalised filter
+object with a Stream gain whose other `values()` are all the constant zero stores nothing but its
+gain (every other way to write the all-zero filter is normalised to it by `Poly` / `__init__`). -/
+theorem allzero_stream_gain_shape (num rest : Terms (Coef K)) (gs : List K)
+    (hnum : List.Pairwise (fun x y : Int × Coef K => x.1 < y.1) num)
+    (hden : List.Pairwise (fun x y : Int × Coef K => x.1 < y.1) (((0 : Int), Coef.strm gs) :: rest))
+    (hstored : ∀ kv ∈ num ++ rest, kv.2 ≠ Coef.const 0) (hcn : ∀ kv ∈ num, 0 ≤ kv.1)
+    (hz : (∀ c ∈ dense num, c = Coef.const 0)
+      ∧ (∀ c ∈ (dense (((0 : Int), Coef.strm gs) :: rest)).tail, c = Coef.const 0)) :
+    num = [] ∧ rest = [] :=
+  allzero_shape num rest (Coef.strm gs) hnum hden hstored hcn hz
+
+/-- **C06.9c** in that corner `ends_with_shortest` is FALSE as soon as the gain stream is shorter
+than the input: `|x|` outputs instead of `min(|x|, |gs|)`. -/
+theorem allzero_stream_gain_not_shortest (gs : List K) (mem : Mem K) (zero : K) (xs : List K)
+    (h : gs.length < xs.length) :
+    ∃ ys its, callTV ([] : Terms (Coef K)) [((0 : Int), Coef.strm gs)] mem zero xs = .ok (ys, its)
+      ∧ ys.length ≠ endLen xs.length [Coef.strm gs] := by
+  refine ⟨_, _, allzero_stream_gain gs mem zero xs, ?_⟩
+  simp only [List.length_map, endLen]
+  omega
+
+/-- **C06.2'** (`call_ends_with_shortest`): on every normalised causal filter object EXCEPT that
+corner — Stream gain and all other `values()` the constant zero — the output of `__call__` ends
+with the shortest of input, coefficient streams and gain stream.  (`hcorner` excludes exactly the
+object of C06.9a/b, for which C06.9c shows the conclusion false.) -/
+theorem call_ends_with_shortest (num den : Terms (Coef K)) (mem : Mem K) (zero : K) (xs : List K)
+    (hnum : List.Pairwise (fun x y : Int × Coef K => x.1 < y.1) num)
+    (hden : List.Pairwise (fun x y : Int × Coef K => x.1 < y.1) den)
+    (hstored : ∀ kv ∈ num ++ den, kv.2 ≠ Coef.const 0) (hc : ∀ kv ∈ num ++ den, 0 ≤ kv.1)
+    (h0 : coefAt den 0 ≠ Coef.const 0)
+    (hcorner : ¬ ((coefAt den 0).isStream = true ∧ (∀ c ∈ dense num, c = Coef.const 0)
+      ∧ (∀ c ∈ (dense den).tail, c = Coef.const 0))) :
+    ∃ ys its, callTV num den mem zero xs = .ok (ys, its) ∧
+      ys.length = endLen xs.length (coefAt den 0 :: (dense num ++ (dense den).tail)) :=
+  callTV_length num den mem zero xs hnum hden hstored hc h0 hcorner
+
+/-- **C06.4'** (`call_reads_once`): `reads_once` for the whole call, any gain: the generated loop
+is run with one iterator per Stream in `loopCoeffs` — the dense coefficient lists of the object,
+or, for a Stream gain, every stored coefficient times its own tee copy of `1/a0` (so one `next`
+on such an iterator is one `next` on the coefficient stream and one on the gain stream) — and
+after `k` outputs every one of them has been advanced by exactly `k` items.  It holds in the corner
+of C06.9 too, but says nothing there: `loopCoeffs` is `([], [])`, the gain stream has no iterator. -/
+theorem call_reads_once (num den : Terms (Coef K)) (mem : Mem K) (zero : K) (xs : List K)
+    (hnum : List.Pairwise (fun x y : Int × Coef K => x.1 < y.1) num)
+    (hden : List.Pairwise (fun x y : Int × Coef K => x.1 < y.1) den)
+    (hstored : ∀ kv ∈ num ++ den, kv.2 ≠ Coef.const 0) (hc : ∀ kv ∈ num ++ den, 0 ≤ kv.1)
+    (h0 : coefAt den 0 ≠ Coef.const 0) (k : Nat) (ys : List K) (its : Its K)
+    (hr : callTV num den mem zero xs = .ok (ys, its)) (hk : k ≤ ys.length) :
+    callTV num den mem zero (xs.take k)
+      = .ok (ys.take k, ⟨(loopCoeffs num den).1.map (fun c => c.items.drop k),
+                          (loopCoeffs num den).2.map (fun c => c.items.drop k)⟩) :=
+  callTV_take num den mem zero xs hnum hden hstored hc h0 k ys its hr hk
+
+/-- … in which a Stream gain is present in EVERY iterator unless the filter is the corner: the
+loop's coefficient lists are all-zero exactly when the object's are. -/
+theorem loop_coeffs_allzero_iff (num den : Terms (Coef K)) :
+    ((∀ c ∈ (loopCoeffs num den).1, c = Coef.const 0) ∧ (∀ c ∈ (loopCoeffs num den).2, c = Coef.const 0))
+      ↔ ((∀ c ∈ dense num, c = Coef.const 0) ∧ (∀ c ∈ (dense den).tail, c = Coef.const 0)) :=
+  loopCoeffs_allzero num den
+
+/-! ### C06.10 two calls of the same filter object -/
+
+/-- **C06.10a** (`second_call_continues`): constant gain.  A coefficient Stream is an iterator the
+filter object owns; the second call hands the same iterators to a new generator.  If the first
+output was ended by its input (`|xs1|` outputs), the second call — its own memory, zero value and
+input — computes the same difference equation with the coefficient index going on at `|xs1|`:
+`a0·y₂[n] = Σ_k b_k[|xs1|+n]·x₂[n−k] − Σ_{k≥1} a_k[|xs1|+n]·y₂[n−k]`. -/
+theorem second_call_continues (b as : List (Coef K)) (a0 zero1 zero2 : K) (mem1 mem2 xs1 xs2 : List K)
+    (hmem2 : mem2.length = as.length)
+    (hnz : ¬ ((∀ c ∈ b, c = Coef.const 0) ∧ (∀ c ∈ as, c = Coef.const 0)))
+    (hfull : (evalTV (compileTV b (Coef.const a0 :: as) zero1) mem1 zero1 (itsOf b as) xs1).1.length
+      = xs1.length) :
+    (evalTV (compileTV b (Coef.const a0 :: as) zero2) mem2 zero2
+        (evalTV (compileTV b (Coef.const a0 :: as) zero1) mem1 zero1 (itsOf b as) xs1).2 xs2).1
+      = tvspec b as (Coef.const a0) zero2 xs1.length mem2 [] xs2 :=
+  evalTV_continue b as a0 zero1 zero2 mem1 mem2 xs1 xs2 hmem2 hnz hfull
+
+/-- **C06.10a'** (`second_call_continues_object`): the same on the filter OBJECT.  A normalised
+causal filter object with a constant gain, not all-zero, is called; the output — ended by its input
+— is consumed; the object, which now holds every coefficient Stream where the generated loop left
+it (`callTwice`: `advance`), is called again with its own memory, zero value and input: causality
+test, gain test, `values()`, memory normalisation, generated source, a new generator on the same
+iterators — the result is the difference equation with the coefficient index going on at `|xs1|`. -/
+theorem second_call_continues_object (num den : Terms (Coef K)) (mem1 mem2 : Mem K) (zero1 zero2 : K)
+    (xs1 xs2 : List K) (g : K)
+    (hnum : List.Pairwise (fun x y : Int × Coef K => x.1 < y.1) num)
+    (hden : List.Pairwise (fun x y : Int × Coef K => x.1 < y.1) den)
+    (hstored : ∀ kv ∈ num ++ den, kv.2 ≠ Coef.const 0) (hc : ∀ kv ∈ num ++ den, 0 ≤ kv.1)
+    (h0 : coefAt den 0 = Coef.const g) (hg : g ≠ 0)
+    (hnz : ¬ ((∀ c ∈ dense num, c = Coef.const 0) ∧ (∀ c ∈ (dense den).tail, c = Coef.const 0)))
+    (hfull : ∃ ys its, callTV num den mem1 zero1 xs1 = .ok (ys, its) ∧ ys.length = xs1.length) :
+    (callTwice num den mem1 zero1 xs1 mem2 zero2 xs2).2.map Prod.fst
+      = .ok (tvspec (dense num) (dense den).tail (Coef.const g) zero2 xs1.length
+              (memoryOf zero2 (dense den).tail.length mem2) [] xs2) :=
+  callTwice_const num den mem1 mem2 zero1 zero2 xs1 xs2 g hnum hden hstored hc h0 hg hnz hfull
+
+/-- … which is the equation on the streams as the first call left them -/
+theorem continued_eq_dropped (b as : List (Coef K)) (a0 : Coef K) (zero : K) (k : Nat)
+    (mem xs : List K) :
+    tvspec (b.map (Coef.dropC k)) (as.map (Coef.dropC k)) (a0.dropC k) zero 0 mem [] xs
+      = tvspec b as a0 zero k mem [] xs := by
+  rw [tvspec_dropC, Nat.zero_add]
+
+/-- **C06.10b** (`second_call_after_stream_gain`, a DEFECT of the code, D16): Stream gain.  The
+variable-gain path works on `den = self.denpoly` — an alias — and executes `den[0] = 0` on it, which
+deletes the gain from the filter object itself.  Whatever the first call returned, the second call
+of the same object finds `denpoly[0] == 0` and raises `ZeroDivisionError("Invalid filter gain")`
+before reading anything, where the property (and C06.10a for a constant gain) wants the difference
+equation with the streams continued. -/
+theorem second_call_after_stream_gain (num rest : Terms (Coef K)) (gs : List K) (mem1 mem2 : Mem K)
+    (zero1 zero2 : K) (xs1 xs2 : List K)
+    (hden : List.Pairwise (fun x y : Int × Coef K => x.1 < y.1) (((0 : Int), Coef.strm gs) :: rest))
+    (hcn : ∀ kv ∈ num, 0 ≤ kv.1) :
+    (callTwice num (((0 : Int), Coef.strm gs) :: rest) mem1 zero1 xs1 mem2 zero2 xs2).2
+      = .error .zeroDivision :=
+  callTwice_gain num rest gs mem1 mem2 zero1 zero2 xs1 xs2 hden hcn
+
 /-! ### C06.6 filter arithmetic acts on coefficient sequences element by element -/
 
 /-- **C06.6a** a product / sum / difference / quotient of two coefficients has an `n`-th value
@@ -375,8 +546,8 @@ example : (evalTV (compileTV [Coef.const (-1), Coef.const 0, Coef.strm [1, 2, 3,
 example : (evalTV (compileTV [Coef.const 1, Coef.strm [1, 2, 3, 4, 5]] [Coef.const (1 : Rat)] 0) [] 0
       (itsOf [Coef.const 1, Coef.strm [1, 2, 3, 4, 5]] []) [1, 1]).2.b = [[], [3, 4, 5]] := by
   decide +kernel
-example := reads_once [Coef.const 1, Coef.strm [1, 2, 3, 4, 5]] [] (1 : ℚ) 0 [] [1, 1, 1] 2 (by simp)
-  (by rw [ends_with_shortest _ _ _ _ _ _ rfl (by simp)]; decide)
+example := reads_once [Coef.const 1, Coef.strm [1, 2, 3, 4, 5]] [] (1 : ℚ) 0 [] [1, 1, 1] 2
+  (by rw [ends_with_shortest _ _ _ _ _ _ rfl]; decide)
 /-- the variable-gain path on `(1 + z^-1) / (Stream(2,3,4,5,6) + Stream(1,1,1,1,1) z^-1)` -/
 example : tvspec [Coef.const 1, Coef.const 1] [Coef.strm [1, 1, 1, 1, 1]] (Coef.strm [(2 : Rat), 3, 4, 5, 6]) 0 0
     [0] [] [1, 1, 1, 1] = [1/2, 1/2, 3/8, 13/40] := by decide +kernel
@@ -417,16 +588,90 @@ example := call_eq_spec [((0 : Int), Coef.const (1 : ℚ)), (1, Coef.strm [1, 2,
 example : callTV [((-1 : Int), Coef.strm [(1 : Rat)])] [(0, Coef.const 1)] Mem.none 0 [1]
     = .error .valueError := noncausal _ _ _ _ _ ⟨((-1 : Int), Coef.strm [1]), by simp, by simp⟩
 
-/-! ### PENDING (full statements kept as definitions, not theorems) -/
-
--- PENDING
-/-- end to end from the constructor arguments (C04.10 for Stream coefficients): the sorted
-dictionary pipeline `mkPoly / normalise / dense` on `Coef`-valued pairs equals `specCallTV`'s
-`coeffsFrom`; proved in C04 for field-valued coefficients, carried by the tie here -/
-def filterCallTV_eq_specCallTV_PENDING : Prop :=
-  ∀ (numPairs denPairs : List (Int × Coef K)) (mem : Mem K) (zero : K) (xs : List K),
-    (∀ gs, coefLast denPairs ((listMin (keysNZ denPairs)).getD 0) = Coef.strm gs → ∀ g ∈ gs, g ≠ 0) →
-    (filterCallTV numPairs denPairs mem zero xs).map Prod.fst = specCallTV numPairs denPairs mem zero xs
+/-- C06.8: `ZFilter({3: 0, 1: Stream(1,2,3,4), -1: 5, 2: 1, 1: Stream(2,2,2,2)}, {2: Stream(1,1,1,1),
+1: Stream(2,4,8,16), 0: 0})` — unordered dictionaries, a duplicate power (the last wins), stored zeros
+(dropped), Stream coefficients incl. a Stream `a0` at power 1, a numerator term at power −1 … which
+makes the filter non-causal after normalisation: -/
+example : (filterCallTV [((3 : Int), Coef.const (0 : Rat)), (1, Coef.strm [1, 2, 3, 4]), (-1, Coef.const 5),
+      (2, Coef.const 1), (1, Coef.strm [2, 2, 2, 2])]
+      [(2, Coef.strm [1, 1, 1, 1]), (1, Coef.strm [2, 4, 8, 16]), (0, Coef.const 0)] Mem.none 0 [1, 1, 1]).map Prod.fst
+    = .error .valueError := by decide +kernel
+/-- … and the same with the negative power carrying a stored zero, which the normalisation removes:
+`(Stream(2,2,2,2) + z^-1) / (Stream(2,4,8,16) + Stream(1,1,1,1) z^-1)` after the common delay 1 is
+divided out — a Stream gain, a Stream numerator coefficient, a Stream feedback coefficient. -/
+example : (filterCallTV [((3 : Int), Coef.const (0 : Rat)), (1, Coef.strm [1, 2, 3, 4]), (-1, Coef.const 0),
+      (2, Coef.const 1), (1, Coef.strm [2, 2, 2, 2])]
+      [(2, Coef.strm [1, 1, 1, 1]), (1, Coef.strm [2, 4, 8, 16]), (0, Coef.const 0)] Mem.none 0 [1, 1, 1]).map Prod.fst
+    = .ok [1, 1/2, 5/16] := by decide +kernel
+example : specCallTV [((3 : Int), Coef.const (0 : Rat)), (1, Coef.strm [1, 2, 3, 4]), (-1, Coef.const 0),
+      (2, Coef.const 1), (1, Coef.strm [2, 2, 2, 2])]
+      [(2, Coef.strm [1, 1, 1, 1]), (1, Coef.strm [2, 4, 8, 16]), (0, Coef.const 0)] Mem.none 0 [1, 1, 1]
+    = .ok [1, 1/2, 5/16] := by decide +kernel
+example := filterCallTV_eq_specCallTV [((3 : Int), Coef.const (0 : ℚ)), (1, Coef.strm [1, 2, 3, 4]),
+    (-1, Coef.const 0), (2, Coef.const 1), (1, Coef.strm [2, 2, 2, 2])]
+  [(2, Coef.strm [1, 1, 1, 1]), (1, Coef.strm [2, 4, 8, 16]), (0, Coef.const 0)] Mem.none 0 [1, 1, 1]
+/-- C06.7c on the normalised object of that filter -/
+example := (call_normalised [((0 : Int), Coef.strm [(2 : ℚ), 2, 2, 2]), (1, Coef.const 1)]
+  [(0, Coef.strm [2, 4, 8, 16]), (1, Coef.strm [1, 1, 1, 1])] Mem.none 0 [1, 1, 1]
+  (by simp) (by simp) (by simp) (by simp) (by simp [coefAt])).2
+  (by intro h; have := h.1 (Coef.const 1) (by simp [dense, order, coefAt]; exact ⟨1, by omega, by simp⟩); simp at this)
+/-- C06.9: `ZFilter([], [Stream(2)])([1,2,3], zero=7)`: three outputs from a one-item gain stream -/
+example : (callTV ([] : Terms (Coef Rat)) [((0 : Int), Coef.strm [2])] Mem.none 7 [1, 2, 3]).map
+    (fun r => (r.1, r.2.b, r.2.a)) = .ok ([7, 7, 7], [], []) := by decide +kernel
+example := allzero_stream_gain_not_shortest [(2 : ℚ)] Mem.none 7 [1, 2, 3] (by simp)
+/-- the same written with stored zeros, from the raw pairs -/
+example : (filterCallTV [((1 : Int), Coef.const (0 : Rat))] [(1, Coef.const 0), (0, Coef.strm [2])] Mem.none 7
+    [1, 2, 3]).map Prod.fst = .ok [7, 7, 7] := by decide +kernel
+/-- C06.2' / C06.4' on `(1 + z^-1) / (Stream(2,3) + z^-1)`: hypotheses satisfiable, two outputs -/
+example := call_ends_with_shortest [((0 : Int), Coef.const (1 : ℚ)), (1, Coef.const 1)]
+  [(0, Coef.strm [2, 3]), (1, Coef.const 1)] Mem.none 0 [1, 1, 1]
+  (by simp) (by simp) (by simp) (by simp) (by simp [coefAt])
+  (by intro h; have := h.2.1 (Coef.const 1) (by simp [dense, order, coefAt]; exact ⟨0, by omega, by simp⟩); simp at this)
+example : (callTV [((0 : Int), Coef.const (1 : Rat)), (1, Coef.const 1)]
+    [(0, Coef.strm [2, 3]), (1, Coef.const 1)] Mem.none 0 [1, 1, 1]).map Prod.fst = .ok [1/2, 1/2] := by
+  decide +kernel
+example := call_reads_once [((0 : Int), Coef.const (1 : ℚ)), (1, Coef.const 1)]
+  [(0, Coef.strm [2, 3]), (1, Coef.const 1)] Mem.none 0 [1, 1, 1]
+  (by simp) (by simp) (by simp) (by simp) (by simp [coefAt]) 1 [1/2, 1/2] ⟨[[], []], [[]]⟩
+  (by decide +kernel) (by simp)
+/-- C06.9b: hypotheses satisfiable (on the corner object itself) -/
+example := allzero_stream_gain_shape ([] : Terms (Coef ℚ)) [] [2, 3] (by simp) (by simp) (by simp) (by simp)
+  (by simp [dense, order])
+/-- C06.10a: `ZFilter({0:1, 1:Stream(1..8)}, {0:2, 1:Stream(1,1/2,…,1/8)})` called twice on `[1,1,1]`
+(the values observed on the real code: 1/2, 11/8, 85/48 then 1/2, 59/20, 781/240) -/
+example : (callTwice [((0 : Int), Coef.const (1 : Rat)), (1, Coef.strm [1, 2, 3, 4, 5, 6, 7, 8])]
+      [(0, Coef.const 2), (1, Coef.strm [1, 1/2, 1/3, 1/4, 1/5, 1/6, 1/7, 1/8])]
+      Mem.none 0 [1, 1, 1] Mem.none 0 [1, 1, 1]).2.map Prod.fst = .ok [1/2, 59/20, 781/240] := by
+  decide +kernel
+example : tvspec [Coef.const (1 : Rat), Coef.strm [1, 2, 3, 4, 5, 6, 7, 8]]
+    [Coef.strm [1, 1/2, 1/3, 1/4, 1/5, 1/6, 1/7, 1/8]] (Coef.const 2) 0 3 [0] [] [1, 1, 1]
+    = [1/2, 59/20, 781/240] := by decide +kernel
+example := second_call_continues [Coef.const (1 : ℚ), Coef.strm [1, 2, 3, 4, 5, 6, 7, 8]]
+  [Coef.strm [1, 1/2, 1/3, 1/4, 1/5, 1/6, 1/7, 1/8]] 2 0 0 [0] [0] [1, 1, 1] [1, 1, 1] rfl (by simp)
+  (by rw [ends_with_shortest _ _ _ _ _ _ rfl]; decide)
+example := second_call_continues_object [((0 : Int), Coef.const (1 : ℚ)), (1, Coef.strm [1, 2, 3, 4, 5, 6, 7, 8])]
+  [(0, Coef.const 2), (1, Coef.strm [1, 1/2, 1/3, 1/4, 1/5, 1/6, 1/7, 1/8])] Mem.none Mem.none 0 0
+  [1, 1, 1] [1, 1, 1] 2 (by simp) (by simp) (by simp) (by simp) (by simp [coefAt]) (by norm_num)
+  (by intro h; have := h.1 (Coef.const 1) (by simp [dense, order, coefAt]; exact ⟨0, by omega, by simp⟩); simp at this)
+  ⟨[1/2, 11/8, 85/48], ⟨[[], [4, 5, 6, 7, 8]], [[1/4, 1/5, 1/6, 1/7, 1/8]]⟩, by decide +kernel, rfl⟩
+/-- C06.10b: `(1 + z^-1) / (Stream(2,3,4,5,6,7,8,9) + Stream(1,…) z^-1)` called twice: the first call
+gives 1/2, 1/2, 3/8, the second raises ZeroDivisionError (observed on the real code) -/
+example : ((callTwice [((0 : Int), Coef.const (1 : Rat)), (1, Coef.const 1)]
+      [(0, Coef.strm [2, 3, 4, 5, 6, 7, 8, 9]), (1, Coef.strm [1, 1, 1, 1, 1, 1, 1, 1])]
+      Mem.none 0 [1, 1, 1] Mem.none 0 [1, 1, 1]).1.map Prod.fst,
+     (callTwice [((0 : Int), Coef.const (1 : Rat)), (1, Coef.const 1)]
+      [(0, Coef.strm [2, 3, 4, 5, 6, 7, 8, 9]), (1, Coef.strm [1, 1, 1, 1, 1, 1, 1, 1])]
+      Mem.none 0 [1, 1, 1] Mem.none 0 [1, 1, 1]).2.map Prod.fst)
+    = (.ok [1/2, 1/2, 3/8], .error .zeroDivision) := by
+  decide +kernel
+example := second_call_after_stream_gain [((0 : Int), Coef.const (1 : ℚ)), (1, Coef.const 1)]
+  [(1, Coef.strm [1, 1, 1, 1, 1, 1, 1, 1])] [2, 3, 4, 5, 6, 7, 8, 9] Mem.none Mem.none 0 0 [1, 1, 1] [1, 1, 1]
+  (by simp) (by simp)
+/-- … where the contract for the two-call history says 1/2, 1/2, 3/8 and then 1/5, 3/10, 17/70 -/
+example : specCallTwice [((0 : Int), Coef.const (1 : Rat)), (1, Coef.const 1)]
+      [(0, Coef.strm [2, 3, 4, 5, 6, 7, 8, 9]), (1, Coef.strm [1, 1, 1, 1, 1, 1, 1, 1])]
+      Mem.none 0 [1, 1, 1] Mem.none 0 [1, 1, 1]
+    = (.ok [1/2, 1/2, 3/8], .ok [1/5, 3/10, 17/70]) := by decide +kernel
 
 end ALV.Props.C06
 
